@@ -1244,5 +1244,66 @@ mod verif_inflate_core {
         kani::cover!(dist == 1 && match_len > 4, "COV:applymatch.run");
     }
 
+    // ------------------------------------------------------------------
+    // K-slowdecode : the real decode_huffman_code / HuffmanTable::{fast_lookup,tree_lookup} on a well-formed table
+    // instance with 11- and 12-bit codes (through the overflow tree), symbolic bit stream, symbolic split between bit
+    // buffer and input. The table is the one init_tree builds for the complete code with lengths 1,2,...,11,12,12
+    // (layout derived from init_tree's algorithm by hand and evaluated at compile time; that init_tree produces it is
+    // NOT checked here: init_tree is behind an assumed contract, DESIGN.md §3). Oracle: canonical Huffman decoding
+    // (RFC 1951 §3.2.2) = count the leading 1 bits.
+    // ------------------------------------------------------------------
+    const LONG_LOOKUP: [i16; 1024] = {
+        let mut t = [0i16; 1024];
+        let mut idx = 0usize;
+        while idx < 1024 {
+            // number of trailing one bits of idx (the stream is read LSB first)
+            let mut k = 0i16; let mut v = idx;
+            while v & 1 == 1 && k < 10 { k += 1; v >>= 1; }
+            t[idx] = if k < 10 { ((k + 1) << 9) | k } else { -1 };
+            idx += 1;
+        }
+        t
+    };
+    const LONG_TREE: [i16; MAX_HUFF_TREE_SIZE] = { let mut t = [0i16; MAX_HUFF_TREE_SIZE]; t[0] = 10; t[1] = -3; t[2] = 11; t[3] = 12; t };
+    fn oracle_unary_code(v: u128, n: u32) -> Option<(i32, u32)> {
+        let mut ones = 0u32;
+        let mut k = 0;
+        while k < 12 { if ones == k && k < n && (v >> k) & 1 == 1 { ones += 1; } k += 1; }
+        let (sym, len) = if ones >= 12 { (12, 12) } else if ones == 11 { (11, 12) } else { (ones as i32, ones + 1) };
+        if n >= len { Some((sym, len)) } else { None }
+    }
+    #[kani::proof]
+    #[kani::unwind(14)]
+    fn k_decode_huffman_code_overflow_tree() {
+        let mut r = DecompressorOxide::default();
+        r.tables[LITLEN_TABLE].look_up = LONG_LOOKUP;
+        r.tables[LITLEN_TABLE].tree = LONG_TREE;
+        let mut l = any_l();
+        kani::assume(l.num_bits <= 40);
+        let inb: [u8; 3] = kani::any();
+        let inl: usize = kani::any();
+        kani::assume(inl <= 3);
+        let flags: u32 = kani::any();
+        let mut in_iter = InputWrapper::from_slice(&inb[..inl]);
+        let (v0, n0) = bits_view(&l, &inb[..inl]);
+        let got = ::core::cell::Cell::new(-1i32);
+        let act = decode_huffman_code(&mut r, &mut l, LITLEN_TABLE, flags, &mut in_iter, |_r, _l, sym| { got.set(sym); Action::None });
+        let (v1, n1) = bits_view(&l, in_iter.as_slice());
+        match oracle_unary_code(v0, n0) {
+            Some((sym, len)) => {
+                assert!(matches!(act, Action::None) && got.get() == sym, "OBL:slowdecode.symbol_is_the_canonical_huffman_decode_incl_11_12_bit_codes [C03]");
+                assert!(n1 + len == n0 && v1 == v0 >> len, "OBL:slowdecode.exactly_the_code_length_is_consumed [C03 C06]");
+            }
+            None => {
+                assert!(matches!(act, Action::End(_)) && got.get() == -1, "OBL:slowdecode.incomplete_code_at_end_of_input_is_starvation_not_a_symbol [C04 C07]");
+                assert!(n1 == n0 && v1 == v0 && in_iter.bytes_left() == 0, "OBL:slowdecode.starved_decode_leaves_the_unread_bit_stream_unchanged [C07]");
+            }
+        }
+        assert!(inv_l(&l), "OBL:slowdecode.registers_well_formed [C05]");
+        kani::cover!(matches!(oracle_unary_code(v0, n0), Some((12, 12))), "COV:slowdecode.twelve_bit_code");
+        kani::cover!(oracle_unary_code(v0, n0).is_none() && n0 >= 11, "COV:slowdecode.starved_inside_the_tree");
+        kani::cover!(inl < 2 && l.num_bits < 15, "COV:slowdecode.byte_at_a_time_path");
+    }
+
     //@PLAYBACK@
 }
